@@ -133,7 +133,7 @@ def cases(tier, seed):
     for n in dims:
         cs.append(Case(f"orthant/n{n}", orthant, dict(n=n), timeout=T))
         for cl in ("basic", "degenerate", "nonexpansive"):
-            cs.append(Case(f"ball/{cl}/n{n}", ball, dict(n=n, clause=cl), timeout=T))
+            cs.append(Case(f"ball/{cl}/n{n}", ball, dict(n=n, clause=cl), timeout=max(T, 300)))
         cs.append(Case(f"ball/jacobian/n{n}", ball_jac, dict(n=n), timeout=T))
     for nu, nc in ((1, 1), (2, 1), (2, 2), (3, 1)) + (((3, 2),) if tier == "thorough" else ()):
         cs.append(Case(f"prox_param/nu{nu}nc{nc}", prox_param, dict(nu=nu, nc=nc), timeout=T))
